@@ -8,6 +8,13 @@ fn usage() -> ! {
 
 fn main() {
     let args: Vec<String> = std::env::args().skip(1).collect();
+    if args.first().map(String::as_str) == Some("__inproc") {
+        bwv::pool::serve();
+        return;
+    }
+    if args.first().map(String::as_str) == Some("__tsparse") && args.len() == 3 {
+        std::process::exit(bwv::pool::ts_parse_only(&args[1], &args[2]));
+    }
     if args.len() < 2 {
         usage();
     }
